@@ -155,6 +155,12 @@ fn tv(t: &TimeVal) -> u64 {
 /// Synthesizes an image for `model`. `surplus_fat`: extra FAT sectors mapping only
 /// non-existent sectors (to get DIFAT sectors in small files).
 pub fn synthesize(model: &Model, version: u8, choices: &[u16], surplus_fat: usize) -> (Vec<u8>, LayoutInfo) {
+    synthesize_opts(model, version, choices, surplus_fat, 0)
+}
+
+/// `force_list`: 0 = generated shapes, 1 = every sibling tree a right-leaning list,
+/// 2 = left-leaning list (degenerate trees of any size; all black).
+pub fn synthesize_opts(model: &Model, version: u8, choices: &[u16], surplus_fat: usize, force_list: u8) -> (Vec<u8>, LayoutInfo) {
     let mut ch = Choices::new(choices);
     let mut info = LayoutInfo::default();
     let sl: usize = if version == 3 { 512 } else { 4096 };
@@ -211,7 +217,12 @@ pub fn synthesize(model: &Model, version: u8, choices: &[u16], surplus_fat: usiz
         }
         debug_assert!(ks.windows(2).all(|w| cfb_cmp(&flat[w[0]].node.name, &flat[w[1]].node.name) == std::cmp::Ordering::Less));
         let style = ch.below(8);
-        if style == 7 && ks.len() <= 6 {
+        if force_list == 2 {
+            for w in ks.windows(2) {
+                left[w[1]] = slot_of[w[0]] as u32;
+            }
+            child[p] = slot_of[*ks.last().unwrap()] as u32;
+        } else if force_list == 1 || (style == 7 && ks.len() <= 6) {
             // degenerate right-leaning list, all black (what this library writes for
             // ascending insertions); legal as far as the property's rules go
             for w in ks.windows(2) {
